@@ -42,6 +42,8 @@ CHECKS = {
          "R2 per interval (steps subset, original Dt); coupling classified from the scenario", "bounded exhaustive scenario enumeration against per-interval reference models", "2 C14"),
  "C19": ("E3 full product of grids ((start, end) over 13 instants x 6 frequencies x 3 main units x 3 zones) x 21 restriction windows x coarse frequencies 2x/3x/4x x all ordered lists of <= 2 (thorough 3) intervals over 6 instants in every container form, explicit / implicit ends, naive / aware data, against the independent grid model R1 and the interval rule",
          "R1 (datetime + zoneinfo); implicit ends compared only where every reading agrees; partial coarse tail dropped", "full product enumeration against an independent reference model", "2 C19"),
+ "C17": ("E3 full product: 5 LP portfolios (incl. transport with a cost series and a structured asset with internal variables) x every present/future boundary x all multisets of 1..3 future price patterns out of 5; EEV_j <= SLP <= mean of scenario optima, SLP = exact extensive form built from the arrays, SLP = deterministic when scenarios coincide, column count; robust: worst case >= every scenario optimum's worst case, <= smallest scenario optimum, = exact max-min LP; cost samples = cost vectors of a set-up with the same prices",
+         "all reference quantities by HiGHS on EAO's own arrays, independent of make_slp and the robust target", "full product enumeration + defining inequalities and exact extensive-form oracle", "2 C17"),
 }
 
 def main():
